@@ -512,6 +512,7 @@ def run(shard, rec, rng):
     abandoned_response(L, rec)
     middleware_release_order(L, rec)
     handed_over_iterators_and_single_local_managers(L, rec)
+    with_blocks_and_contextvar_proxies(L, rec)
     # (b) threads
     TOPS = [o for o in OPS if o != "spawn"]
     for _ in range(cfg["thread_scheds"]):
@@ -793,6 +794,98 @@ def handed_over_iterators_and_single_local_managers(L, rec):
         if seen != [None, None, None]:
             rec.violation("C18/release-through-manager-releases-nothing", f"LocalManager({kind}): the values seen at the start of two requests and after cleanup() are {seen!r}, all must be None",
                           {"scenario": "single-local-manager", "kind": kind}, monitor="reference-store")
+
+
+def with_blocks_and_contextvar_proxies(L, rec):
+    """One module-level proxy used as a context manager from two sibling contexts at overlapping times: every __enter__ /
+    __exit__ reaches the object bound in the context that calls it.  A proxy on a ContextVar with an attribute name:
+    bound means bound, whatever the attribute lookup itself raises."""
+
+    class CM:
+        def __init__(self, tag):
+            self.tag, self.events = tag, []
+
+        def __enter__(self):
+            self.events.append("enter")
+            return self.tag
+
+        def __exit__(self, *a):
+            self.events.append("exit")
+            return False
+
+        async def __aenter__(self):
+            self.events.append("aenter")
+            return self.tag
+
+        async def __aexit__(self, *a):
+            self.events.append("aexit")
+            return False
+
+    for order in (("A", "B", "A", "B"), ("A", "B", "B", "A"), ("A", "A", "B", "B")):
+        ns = L.Local()
+        proxy = ns("cm")
+        ctx = {"A": contextvars.copy_context(), "B": contextvars.copy_context()}
+        cms = {"A": CM("A"), "B": CM("B")}
+        for k in ctx:
+            ctx[k].run(setattr, ns, "cm", cms[k])
+        entered = set()
+        got = []
+        for who in order:
+            if who not in entered:
+                got.append((who, "enter", ctx[who].run(lambda: proxy.__enter__())))
+                entered.add(who)
+            else:
+                got.append((who, "exit", ctx[who].run(lambda: proxy.__exit__(None, None, None))))
+        rec.case()
+        rec.nontrivial(("with-through-proxy", order))
+        rec.observe("with_blocks_through_one_proxy")
+        ok = all(cms[k].events == ["enter", "exit"] for k in cms) and [g for g in got if g[1] == "enter"] == [(w, "enter", w) for w in dict.fromkeys(order)]
+        if not ok:
+            rec.violation("C18/PROXY-resolves-to-a-sibling-contexts-object", f"'with proxy:' in two contexts in the order {order!r}: calls returned {got!r}; A's object saw {cms['A'].events!r}, B's {cms['B'].events!r}",
+                          {"scenario": "with-through-proxy", "order": list(order)}, monitor="proxy")
+            break
+    # ---- ContextVar-backed proxy with an attribute name
+
+    class Holder:
+        @property
+        def missing_key(self):
+            raise KeyError("no such key")
+
+        @property
+        def bad_index(self):
+            raise IndexError("no such item")
+
+        value = "bound-value"
+
+    cv = contextvars.ContextVar("c18-holder")
+    for attr, exc in (("missing_key", KeyError), ("bad_index", IndexError), ("value", None)):
+        p = L.LocalProxy(cv, attr, unbound_message="nothing bound")
+
+        def bound():
+            cv.set(Holder())
+            try:
+                return ("value", p._get_current_object())
+            except RuntimeError as e:
+                return ("unbound", str(e))
+            except Exception as e:  # noqa: BLE001
+                return (type(e).__name__,)
+
+        def unbound():
+            try:
+                return ("value", p._get_current_object())
+            except RuntimeError as e:
+                return ("unbound", str(e))
+            except Exception as e:  # noqa: BLE001
+                return (type(e).__name__,)
+
+        rb, ru = contextvars.Context().run(bound), contextvars.Context().run(unbound)
+        rec.case()
+        rec.nontrivial(("contextvar-proxy", attr))
+        rec.observe("contextvar_proxies_with_a_name")
+        want = ("value", "bound-value") if exc is None else (exc.__name__,)
+        if rb != want or ru != ("unbound", "nothing bound"):
+            rec.violation("C18/PROXY-bound-object-reported-unbound" if rb[0] == "unbound" else "C18/PROXY-contextvar-resolution", f"LocalProxy(ContextVar, {attr!r}): where an object is bound -> {rb!r} (expected {want!r}); where nothing is bound -> {ru!r}",
+                          {"scenario": "contextvar-proxy", "attribute": attr}, monitor="proxy")
 
 
 def stress(L, rec, rng, nops):
